@@ -14,6 +14,7 @@ import H3.Drv.C19
 import H3.Drv.C04
 import H3.Drv.C08
 import H3.Drv.C09
+import H3.Drv.C14
 open H3.Drv
 
 def dispatch (ws : List String) : String :=
@@ -35,12 +36,14 @@ def dispatch (ws : List String) : String :=
     else if e == "ctl" then H3.Drv.C04.handle ws
     else if e == "goaway" || e == "goawayj" then H3.Drv.C08.handle ws
     else if e == "drain" then H3.Drv.C09.handle ws
+    else if e == "wbuf" || e == "out" || e == "outlog" then H3.Drv.C14.handle ws
     else "bad-op"
 
 partial def loop (h : IO.FS.Stream) (out : IO.FS.Stream) : IO Unit := do
   let line ← h.getLine
   if line.isEmpty then return ()
   out.putStrLn (dispatch (words line))
+  out.flush
   loop h out
 
 def main : IO Unit := do
